@@ -84,6 +84,8 @@ func optIDStr(s string) *ecs.ID {
 }
 
 // parseFilter returns the real filter and its set-semantics oracle.
+var pureAlt int
+
 func parseFilter(t []string) (ecs.Filter, func(map[int]bool) bool, []string) {
 	if len(t) == 0 {
 		return nil, nil, nil
@@ -150,12 +152,25 @@ func parseFilter(t []string) (ecs.Filter, func(map[int]bool) bool, []string) {
 			}
 			return true
 		}
+		// the logic filters are exported mask types: half of the time the value is built by converting a mask
+		// instead of calling the constructor (both are public API and must mean the same)
+		pureAlt++
+		direct := pureAlt%2 == 0
 		switch t[0] {
 		case "ANY":
+			if direct {
+				return filter.ANY(ecs.All(parseIDs(t[1])...)), anyF, t[2:]
+			}
 			return filter.Any(parseIDs(t[1])...), anyF, t[2:]
 		case "NONE":
+			if direct {
+				return filter.NoneOF(ecs.All(parseIDs(t[1])...)), func(b map[int]bool) bool { return !anyF(b) }, t[2:]
+			}
 			return filter.NoneOf(parseIDs(t[1])...), func(b map[int]bool) bool { return !anyF(b) }, t[2:]
 		default:
+			if direct {
+				return filter.AnyNOT(ecs.All(parseIDs(t[1])...)), func(b map[int]bool) bool { return !allF(b) }, t[2:]
+			}
 			return filter.AnyNot(parseIDs(t[1])...), func(b map[int]bool) bool { return !allF(b) }, t[2:]
 		}
 	case "&", "|", "^":
